@@ -56,6 +56,12 @@ def gen_inputs(ctx):
                 items[b] = ("res", None, [pdbgen.setcols(pdbgen.setcols(l, 22, 26, num), 26, 27, "A") for l in items[b][2]])
                 lines = pdbgen.flatten(items)
         out.append(("gen%d" % i, pdbgen.text(lines)))
+    # a free cysteine whose SG is hydrogen-bonded to an ionizable group of another residue: left out of the list it still is
+    # that group's hydrogen-bond partner
+    for partner in ((("LYS", "NZ"), ("TYR", "OH")) if ctx.quick() else (("LYS", "NZ"), ("TYR", "OH"), ("ARG", "NH1"), ("HIS", "NE2"), ("LYS", "NZ"))):
+        cl = pdbgen.cys_contact(rnd, partner)
+        if cl is not None:
+            out.append(("cys-%s" % partner[0], pdbgen.text(cl)))
     # bridged cysteines named in the list stay non-titrating
     out.append(("ss-bridge", pdbgen.text(pdbgen.ss_fragment())))
     return out
